@@ -8,7 +8,7 @@ COMMON_TRUSTED = [
     "no extraction: the model is evaluated inside coqc by vm_compute on the very cases the implementation ran",
 ]
 
-HOOK_COMMITS = []
+HOOK_COMMITS = ["617529b", "89c6acf", "24306f8", "b70da77", "408e073"]
 
 ALL_IDS = ["C%02d" % i for i in range(1, 21)]
 
